@@ -235,6 +235,9 @@ func cmdCheck(args []string) {
 		for _, u := range j.fc.UseLemmas {
 			usedLemmas[u] = true
 		}
+		for _, u := range j.fc.Instantiate2 {
+			usedLemmas[u] = true
+		}
 		for _, inst := range j.fc.Instantiate {
 			if i := strings.Index(inst, "("); i > 0 {
 				usedLemmas[strings.TrimSpace(inst[:i])] = true
